@@ -160,13 +160,18 @@ def do_compile(job) -> dict:
                 res["stages"]["render_" + lang] = classify(e)
     if job.get("cli"):
         res["stages"]["cli"] = do_cli(job, main, limit)
+        if job.get("cli_check"):
+            res["stages"]["cli_check"] = do_cli(job, main, limit, check_only=True)
     return res
 
 
-def do_cli(job, main, limit) -> dict:
-    """The command line: exit status + whether a Python traceback reached stderr."""
+def do_cli(job, main, limit, check_only: bool = False) -> dict:
+    """The command line (normal, or `-c`: parse + lint only): exit status + whether a Python
+    traceback reached stderr."""
     lang = job.get("cli_lang", "py")
     cmd = [sys.executable, "-m", "bitproto._main", lang, main, job["dir"]]
+    if check_only:
+        cmd = [sys.executable, "-m", "bitproto._main", "-c", main]
     try:
         p = subprocess.run(cmd, capture_output=True, timeout=limit * WALL_FACTOR + 30)
     except subprocess.TimeoutExpired:
